@@ -108,6 +108,9 @@ def replay(beh, nroots, nkids):
                 a, b = find(slots[op["slot"]], op["unit"]), find(slots[op["slot"]], op["to"])
                 b.velocity, b.time_stamp = a.velocity, a.time_stamp
                 a.velocity = a.time_stamp = None
+            elif name == "share":
+                a, b = find(slots[op["slot"]], op["unit"]), find(slots[op["slot"]], op["to"])
+                b.velocity, b.time_stamp = a.velocity, a.time_stamp
             elif name == "insert":
                 sh.insert_into_global_state([slots.pop(op["slot"])])
             elif name == "drop":
